@@ -46,6 +46,7 @@ func randomCfg(prop string, f *evid.Flags, idx int) (*dCfg, *rng.R) {
 	}
 	c.SlowW = r.Intn(3)
 	c.Pad = []int{0, 0, 0, 1, 2}[r.Intn(5)]
+	c.FaultW = []int{0, 0, 0, 1, 2}[r.Intn(5)]
 	switch prop {
 	case "C10":
 		c.Block = r.Chance(1, 5)
@@ -437,6 +438,9 @@ func judgeC12(out *evid.Out, r *dRun) {
 		viol("close-hangs", "Close cannot return: "+r.CloseHung)
 	} else if r.CloseHung != "" {
 		out.Inconc("Close did not return within the watchdog: " + r.CloseHung + " " + r.cfg.String())
+	}
+	if r.Livelock != "" {
+		viol("consumer-livelock", "the consumer does not move on to later messages: "+r.Livelock)
 	}
 	switch r.StallState {
 	case "parked", "polling":
